@@ -279,7 +279,8 @@ func Cheap(root *ggql.Root) (out string) {
 			out = fmt.Sprintf("PANIC in SDL: %v", r)
 		}
 	}()
-	return root.SDL(true, true)
+	// (the package-level switches are part of what a load must leave alone)
+	return root.SDL(true, true) + fmt.Sprintf("\n# package switches: Relaxed=%v Sort=%v MaxResolveDepth=%d\n", ggql.Relaxed, ggql.Sort, ggql.MaxResolveDepth)
 }
 
 func literalFor(t ggql.Type, depth int) string {
